@@ -105,7 +105,9 @@ namespace cnl {
             fraction<LhsNumerator, LhsDenominator> const& lhs,
             fraction<RhsNumerator, RhsDenominator> const& rhs)
     {
-        return lhs.numerator * rhs.denominator < rhs.numerator * lhs.denominator;
+        return ((lhs.denominator < 0) != (rhs.denominator < 0))
+                     ? lhs.numerator * rhs.denominator > rhs.numerator * lhs.denominator
+                     : lhs.numerator * rhs.denominator < rhs.numerator * lhs.denominator;
     }
 
     template<
@@ -115,7 +117,9 @@ namespace cnl {
             fraction<LhsNumerator, LhsDenominator> const& lhs,
             fraction<RhsNumerator, RhsDenominator> const& rhs)
     {
-        return lhs.numerator * rhs.denominator > rhs.numerator * lhs.denominator;
+        return ((lhs.denominator < 0) != (rhs.denominator < 0))
+                     ? lhs.numerator * rhs.denominator < rhs.numerator * lhs.denominator
+                     : lhs.numerator * rhs.denominator > rhs.numerator * lhs.denominator;
     }
 
     template<
@@ -125,7 +129,9 @@ namespace cnl {
             fraction<LhsNumerator, LhsDenominator> const& lhs,
             fraction<RhsNumerator, RhsDenominator> const& rhs)
     {
-        return lhs.numerator * rhs.denominator <= rhs.numerator * lhs.denominator;
+        return ((lhs.denominator < 0) != (rhs.denominator < 0))
+                     ? lhs.numerator * rhs.denominator >= rhs.numerator * lhs.denominator
+                     : lhs.numerator * rhs.denominator <= rhs.numerator * lhs.denominator;
     }
 
     template<
@@ -135,7 +141,9 @@ namespace cnl {
             fraction<LhsNumerator, LhsDenominator> const& lhs,
             fraction<RhsNumerator, RhsDenominator> const& rhs)
     {
-        return lhs.numerator * rhs.denominator >= rhs.numerator * lhs.denominator;
+        return ((lhs.denominator < 0) != (rhs.denominator < 0))
+                     ? lhs.numerator * rhs.denominator <= rhs.numerator * lhs.denominator
+                     : lhs.numerator * rhs.denominator >= rhs.numerator * lhs.denominator;
     }
 
 #if defined(CNL_IOSTREAMS_ENABLED)
